@@ -887,6 +887,54 @@ def bounded_builders(ctx) -> Dict[str, Any]:
     return res
 
 
+def translator_differential(ctx) -> Dict[str, Any]:
+    """PyVC's translation of both comparators, evaluated on random concrete endpoints, against CPython running the real functions."""
+    import random
+
+    import numpy as np
+    from hta.common import call_stack as cs
+    from hta.common import trace_call_stack as tcs
+
+    rng = random.Random(ctx.seed + 17)
+    less_new, _ = _less_new_factory()
+    less_old, _ = _less_old_factory()
+    p, q = Ep("p"), Ep("q")
+    t_new, _r1 = less_new(p, q)
+    t_old, _r2 = less_old(p, q)
+    n = 400 if not ctx.thorough else 5000
+    fails, distinct = [], set()
+    for _ in range(n):
+        vals = {}
+        for e in (p, q):
+            vals[e] = dict(idx=rng.randint(0, 3), ts=rng.randint(0, 4), dur=rng.choice([0, 0, 1, 2, 3]), open=rng.random() < 0.5)
+        if vals[p]["idx"] == vals[q]["idx"]:
+            vals[q].update(ts=vals[p]["ts"], dur=vals[p]["dur"], open=not vals[p]["open"])
+        subst = []
+        for e in (p, q):
+            v = vals[e]
+            subst += [(e.ev.idx, z3.IntVal(v["idx"])), (e.ev.ts, z3.IntVal(v["ts"])), (e.ev.dur, z3.IntVal(v["dur"])), (e.open, z3.BoolVal(v["open"]))]
+        key = tuple(sorted((str(a), str(b)) for a, b in subst))
+        distinct.add(key)
+
+        def row(v):
+            return np.array([v["idx"], v["dur"], -1 if v["open"] else 1, v["ts"] if v["open"] else v["ts"] + v["dur"]])
+
+        def evt(v):
+            return cs.Event(v["idx"], v["ts"] if v["open"] else v["ts"] + v["dur"], v["dur"], 1 if v["open"] else -1)
+
+        for which, term, real in (("_less_than", t_new, lambda: bool(tcs._less_than(row(vals[p]), row(vals[q])))), ("compare_events", t_old, lambda: cs.compare_events(evt(vals[p]), evt(vals[q])) < 0)):
+            try:
+                want = real()
+            except ValueError:
+                continue  # the real function raises on this pair (covered by the noraise obligation)
+            got = z3.is_true(z3.simplify(z3.substitute(term, *subst)))
+            if got != want and len(fails) < 3:
+                fails.append({"what": f"translator_differential.{which}", "input": {"p": vals[p], "q": vals[q]}, "observed": {"z3_term": got}, "expected": {"cpython": want},
+                              "how": "the z3 term produced by PyVC disagrees with the real function: the ENGINE is wrong, not the repository"})
+    return {"evaluations": 2 * n, "distinct": len(distinct), "failures": fails, "scope": f"{n} random endpoint pairs (ids 0-3, times 0-4, durations 0-3) per comparator", "samples": [{"pairs": n}],
+            "engine_check": True}
+
+
 # ---------------------------------------------------------------------------------------------- replay of comparator counter-models
 
 
@@ -939,7 +987,7 @@ SPEC = Spec(
                (TCS, "CallStackGraph._construct_call_stack_graph"), (TCS, "CallStackGraph._add_edge"),
                (CS, "compare_events"), (CS, "CallStackGraph._construct_call_stack_graph"), (CS, "CallStackGraph._add_edge")],
     units=units,
-    bounded=[Bounded("builders_vs_oracle", bounded_builders)],
+    bounded=[Bounded("builders_vs_oracle", bounded_builders), Bounded("translator_differential", translator_differential)],
     replay=replay,
     trusted=[
         "sorted()/list.sort with cmp_to_key returns a permutation without inversions when `<` derived from the comparator is a strict (weak) order on the elements",
